@@ -1,19 +1,705 @@
-use enum_tools::__verif::{expand, set_hash_plan, Outcome, Strategy};
-fn main() {
-    let src = r#"#[derive(Clone, Copy, EnumTools)] #[enum_tools(as_str, iter, range, names, next, try_from)] #[repr(i8)] pub enum E { A = -3, B = 4, C = 5, D }"#;
-    set_hash_plan(Some((Strategy::Sip, 1)));
-    let a = expand(src.parse().unwrap());
-    set_hash_plan(Some((Strategy::Const, 7)));
-    let b = expand(src.parse().unwrap());
-    println!("{}", a == b);
-    if let Outcome::Expanded(t) = &a { println!("{}", &t[..200]); }
-    for bad in [
-        r#"#[enum_tools(iter)] pub enum E { A }"#,
-        r#"#[repr(u8)] #[enum_tools(bogus)] pub enum E { A }"#,
-        r#"#[repr(u8)] #[enum_tools(iter(name = "1 bad"))] pub enum E { A }"#,
-        r#"struct"#,
-    ] {
-        println!("{:?}", expand(bad.parse().unwrap()));
+//! EXPSIM — the expansion simulator (C17).
+//!
+//! One run = one simulated compiler process: 1..=3 expansion threads, each with its own
+//! proc-macro-error thread-locals, and a history of derive invocations (copies of the
+//! observed declaration D*, other supported declarations, fault declarations). Every
+//! invocation gets a freshly drawn hash plan for every map the parser creates. Oracle:
+//! byte equality of the expansion text of a declaration with its reference expansion.
+//!
+//!   run    --seed S --runs N [--from A] [--workers W] [--huge 0|1] [--out FILE]
+//!   replay --file FILE            (history file written by a failing run)
+//!   gen-real --seed S --count M   (prints the source of an EXPSIM-REAL crate and its index)
+//!   expand --strategy s --hseed n (reads a declaration on stdin, prints the outcome)
+
+mod gen;
+
+use enum_tools::__verif::{expand, set_hash_plan, HashMap as SimMap, Outcome, SimBuildHasher, Strategy};
+use simcore::json::J;
+use simcore::rng::{tag, Rng};
+use std::collections::{BTreeMap, HashSet};
+use std::sync::atomic::{AtomicBool, AtomicU64, Ordering};
+use std::sync::mpsc::{channel, Receiver, Sender};
+use std::sync::Mutex;
+use std::time::Instant;
+
+const STRATEGIES: [(Strategy, &str); 5] = [
+    (Strategy::Sip, "sip"),
+    (Strategy::Const, "const"),
+    (Strategy::LowBits, "low_bits"),
+    (Strategy::Identity, "identity"),
+    (Strategy::BitReverse, "bit_reverse"),
+];
+
+fn strat_name(s: Strategy) -> &'static str {
+    STRATEGIES.iter().find(|(x, _)| *x == s).unwrap().1
+}
+
+fn arg<'a>(args: &'a [String], name: &str) -> Option<&'a str> {
+    args.iter()
+        .position(|a| a == name)
+        .and_then(|i| args.get(i + 1))
+        .map(|s| s.as_str())
+}
+
+fn die(msg: &str) -> ! {
+    eprintln!("expsim: harness error: {}", msg);
+    std::process::exit(2)
+}
+
+fn fnv(bytes: &[u8]) -> u64 {
+    let mut h = 0xcbf2_9ce4_8422_2325u64;
+    for b in bytes {
+        h ^= *b as u64;
+        h = h.wrapping_mul(0x100_0000_01b3);
     }
-    println!("{}", expand(src.parse().unwrap()) == a);
+    h
+}
+
+fn mix(mut x: u64) -> u64 {
+    simcore::rng::splitmix(&mut x)
+}
+
+#[derive(Clone, Debug)]
+struct Invocation {
+    /// index into the run's declaration table; None for a fault declaration
+    decl: Option<usize>,
+    fault_tag: &'static str,
+    src: String,
+    thread: usize,
+    strategy: Strategy,
+    hseed: u64,
+}
+
+fn outcome_class(o: &Outcome) -> &'static str {
+    match o {
+        Outcome::Expanded(_) => "expanded",
+        Outcome::ParseError(_) => "parse_error",
+        Outcome::Aborted => "aborted",
+        Outcome::Rejected => "rejected",
+        Outcome::Panicked(_) => "panicked",
+    }
+}
+
+// ------------------------------------------------------------------------------------------
+// simulated expansion threads: real OS threads, strict hand-off (never two runnable)
+
+enum Msg {
+    Expand(String, Strategy, u64),
+}
+
+struct SimThread {
+    tx: Sender<Msg>,
+    rx: Receiver<Outcome>,
+}
+
+fn spawn_sim_thread() -> SimThread {
+    let (tx, jrx) = channel::<Msg>();
+    let (otx, rx) = channel::<Outcome>();
+    std::thread::Builder::new()
+        .stack_size(64 << 20)
+        .spawn(move || {
+            for m in jrx {
+                match m {
+                    Msg::Expand(src, strategy, hseed) => {
+                        let o = match src.parse::<proc_macro2::TokenStream>() {
+                            Ok(ts) => {
+                                set_hash_plan(Some((strategy, hseed)));
+                                expand(ts)
+                            }
+                            Err(e) => Outcome::ParseError(format!("lex: {}", e)),
+                        };
+                        if otx.send(o).is_err() {
+                            break;
+                        }
+                    }
+                }
+            }
+        })
+        .expect("spawn sim thread");
+    SimThread { tx, rx }
+}
+
+impl SimThread {
+    fn expand(&self, src: &str, strategy: Strategy, hseed: u64) -> Outcome {
+        self.tx
+            .send(Msg::Expand(src.to_string(), strategy, hseed))
+            .expect("sim thread alive");
+        self.rx.recv().expect("sim thread answered")
+    }
+}
+
+/// executes a history on fresh simulated threads; returns the outcomes in order
+fn execute(history: &[Invocation]) -> Vec<Outcome> {
+    let nthreads = history.iter().map(|i| i.thread).max().map(|t| t + 1).unwrap_or(1);
+    let threads: Vec<SimThread> = (0..nthreads).map(|_| spawn_sim_thread()).collect();
+    history
+        .iter()
+        .map(|inv| threads[inv.thread].expand(&inv.src, inv.strategy, inv.hseed))
+        .collect()
+}
+
+// ------------------------------------------------------------------------------------------
+
+struct RunPlan {
+    decls: Vec<gen::Decl>,
+    history: Vec<Invocation>,
+}
+
+fn plan_run(seed: u64, idx: u64, huge: bool) -> RunPlan {
+    let mut rng = Rng::stream(seed, tag("expsim"), idx);
+    let nthreads = match rng.below(10) {
+        0..=5 => 1,
+        6..=8 => 2,
+        _ => 3,
+    };
+    let span = if rng.chance(1, 4) { 39 } else { 10 };
+    let n_inv = 2 + rng.below(span) as usize;
+    let n_other = rng.below(3) as usize;
+    let mut decls = Vec::new();
+    decls.push(gen::supported(&mut rng, "D0", huge));
+    for k in 0..n_other {
+        decls.push(gen::supported(&mut rng, &format!("D{}", k + 1), false));
+    }
+    // very large declarations: keep the history short
+    let big = decls.iter().map(|d| d.n).max().unwrap_or(0);
+    let n_inv = if big > 20000 {
+        n_inv.min(3)
+    } else if big > 1000 {
+        n_inv.min(8)
+    } else {
+        n_inv
+    };
+    let fault_pct = *rng.pick(&[0u64, 10, 30, 60]);
+    let mut history = Vec::with_capacity(n_inv + 1);
+    // the reference expansion of D*: first thing a fresh thread does, plan sip(0)
+    history.push(Invocation {
+        decl: Some(0),
+        fault_tag: "",
+        src: decls[0].src.clone(),
+        thread: 0,
+        strategy: Strategy::Sip,
+        hseed: 0,
+    });
+    for _ in 0..n_inv {
+        let thread = rng.below(nthreads) as usize;
+        let strategy = STRATEGIES[rng.below(5) as usize].0;
+        let hseed = rng.next_u64();
+        if rng.below(100) < fault_pct {
+            let (t, src) = gen::fault(&mut rng, false);
+            history.push(Invocation {
+                decl: None,
+                fault_tag: t,
+                src,
+                thread,
+                strategy,
+                hseed,
+            });
+        } else {
+            let d = if rng.chance(3, 5) {
+                0
+            } else {
+                rng.below(decls.len() as u64) as usize
+            };
+            history.push(Invocation {
+                decl: Some(d),
+                fault_tag: "",
+                src: decls[d].src.clone(),
+                thread,
+                strategy,
+                hseed,
+            });
+        }
+    }
+    RunPlan { decls, history }
+}
+
+/// the iteration order the chosen plan induces on the `values` map of this invocation,
+/// recomputed harness-side with the same hasher state (the values map is the map created
+/// after the feature map and one parameter map per feature entry)
+fn induced_order(d: &gen::Decl, strategy: Strategy, hseed: u64) -> Vec<i64> {
+    let state = SimBuildHasher::planned(strategy, hseed, 1 + d.feature_entries as u64);
+    let mut m: SimMap<i64, ()> = SimMap::with_state(state);
+    for v in &d.values {
+        m.insert(*v, ());
+    }
+    m.iter().map(|(k, _)| *k).collect()
+}
+
+#[derive(Clone)]
+struct Mismatch {
+    /// index in the history of the reference expansion and of the differing one
+    at: usize,
+    reference_at: usize,
+    decl: usize,
+    expected: Outcome,
+    observed: Outcome,
+}
+
+fn find_mismatch(history: &[Invocation], outcomes: &[Outcome]) -> Option<Mismatch> {
+    let mut first: BTreeMap<usize, usize> = BTreeMap::new();
+    for (i, inv) in history.iter().enumerate() {
+        if let Some(d) = inv.decl {
+            match first.get(&d) {
+                None => {
+                    first.insert(d, i);
+                }
+                Some(&r) => {
+                    if outcomes[i] != outcomes[r] {
+                        return Some(Mismatch {
+                            at: i,
+                            reference_at: r,
+                            decl: d,
+                            expected: outcomes[r].clone(),
+                            observed: outcomes[i].clone(),
+                        });
+                    }
+                }
+            }
+        }
+    }
+    None
+}
+
+fn outcome_text(o: &Outcome) -> String {
+    match o {
+        Outcome::Expanded(t) => t.clone(),
+        other => format!("<{:?}>", other),
+    }
+}
+
+fn first_difference(a: &str, b: &str) -> String {
+    let ta: Vec<&str> = a.split(' ').collect();
+    let tb: Vec<&str> = b.split(' ').collect();
+    let mut i = 0;
+    while i < ta.len() && i < tb.len() && ta[i] == tb[i] {
+        i += 1;
+    }
+    let ctx = |t: &Vec<&str>| {
+        let lo = i.saturating_sub(12);
+        let hi = (i + 12).min(t.len());
+        t[lo..hi].join(" ")
+    };
+    format!("token #{}: expected «{}» observed «{}»", i, ctx(&ta), ctx(&tb))
+}
+
+/// minimise: drop history entries (keeping the reference and the differing invocation's
+/// declaration), collapse threads, replace plans by sip(0) where the difference survives
+fn shrink(history: &[Invocation]) -> (Vec<Invocation>, u32) {
+    let mut attempts = 0u32;
+    let mut best: Vec<Invocation> = history.to_vec();
+    let fails = |h: &[Invocation], attempts: &mut u32| -> bool {
+        *attempts += 1;
+        let o = execute(h);
+        find_mismatch(h, &o).is_some()
+    };
+    // truncate after the mismatch
+    {
+        let o = execute(&best);
+        if let Some(m) = find_mismatch(&best, &o) {
+            best.truncate(m.at + 1);
+        } else {
+            return (best, attempts);
+        }
+    }
+    let mut chunk = (best.len() / 2).max(1);
+    loop {
+        let mut i = 0;
+        let mut progressed = false;
+        while i < best.len() && best.len() > 2 {
+            let end = (i + chunk).min(best.len());
+            let mut cand = Vec::new();
+            cand.extend_from_slice(&best[..i]);
+            cand.extend_from_slice(&best[end..]);
+            if cand.len() >= 2 && fails(&cand, &mut attempts) {
+                best = cand;
+                progressed = true;
+            } else {
+                i = end;
+            }
+        }
+        if attempts > 300 || best.len() <= 2 || (chunk == 1 && !progressed) {
+            break;
+        }
+        if !progressed {
+            chunk = (chunk / 2).max(1);
+        }
+        chunk = chunk.min(best.len()).max(1);
+    }
+    // one thread
+    if best.iter().any(|i| i.thread != 0) {
+        let cand: Vec<Invocation> = best
+            .iter()
+            .map(|i| Invocation {
+                thread: 0,
+                ..i.clone()
+            })
+            .collect();
+        if fails(&cand, &mut attempts) {
+            best = cand;
+        }
+    }
+    // simplest plans
+    for k in 0..best.len() {
+        if best[k].strategy != Strategy::Sip || best[k].hseed != 0 {
+            let mut cand = best.clone();
+            cand[k].strategy = Strategy::Sip;
+            cand[k].hseed = 0;
+            if fails(&cand, &mut attempts) {
+                best = cand;
+            }
+        }
+    }
+    (best, attempts)
+}
+
+fn history_json(h: &[Invocation]) -> J {
+    J::Arr(
+        h.iter()
+            .map(|i| {
+                J::obj(vec![
+                    ("decl", i.decl.map(|d| J::Int(d as i128)).unwrap_or(J::Null)),
+                    ("fault", J::s(i.fault_tag)),
+                    ("thread", J::Int(i.thread as i128)),
+                    ("strategy", J::s(strat_name(i.strategy))),
+                    ("hseed", J::s(i.hseed.to_string())),
+                    ("src", J::s(i.src.clone())),
+                ])
+            })
+            .collect(),
+    )
+}
+
+#[derive(Default)]
+struct Acc {
+    runs: u64,
+    invocations: u64,
+    expansions_compared: u64,
+    digest: u64,
+    nontrivial: Vec<u64>,
+    orders: HashSet<u64>,
+    placements: HashSet<u64>,
+    faults: BTreeMap<&'static str, u64>,
+    outcome_classes: BTreeMap<&'static str, u64>,
+    strategies: BTreeMap<&'static str, u64>,
+    threads_hist: [u64; 4],
+    unexpected_reject_of_supported: u64,
+    max_variants: usize,
+}
+
+fn run_cmd(args: &[String]) -> ! {
+    let t0 = Instant::now();
+    let seed: u64 = arg(args, "--seed").and_then(|s| s.parse().ok()).unwrap_or_else(|| die("--seed"));
+    let runs: u64 = arg(args, "--runs").and_then(|s| s.parse().ok()).unwrap_or_else(|| die("--runs"));
+    let from: u64 = arg(args, "--from").and_then(|s| s.parse().ok()).unwrap_or(0);
+    let workers: usize = arg(args, "--workers").and_then(|s| s.parse().ok()).unwrap_or(1);
+    let huge = arg(args, "--huge").map(|s| s == "1").unwrap_or(false);
+    let next = AtomicU64::new(from);
+    let end = from + runs;
+    let stop = AtomicBool::new(false);
+    let accs: Mutex<Vec<Acc>> = Mutex::new(Vec::new());
+    let found: Mutex<Vec<J>> = Mutex::new(Vec::new());
+    let samples: Mutex<BTreeMap<u64, J>> = Mutex::new(BTreeMap::new());
+    let rejected_supported: Mutex<Vec<J>> = Mutex::new(Vec::new());
+
+    let work = || {
+        let mut acc = Acc::default();
+        loop {
+            if stop.load(Ordering::SeqCst) {
+                break;
+            }
+            let a = next.fetch_add(16, Ordering::SeqCst);
+            if a >= end {
+                break;
+            }
+            for idx in a..(a + 16).min(end) {
+                let plan = plan_run(seed, idx, huge);
+                let outcomes = execute(&plan.history);
+                acc.runs += 1;
+                acc.invocations += plan.history.len() as u64;
+                let nthreads = plan.history.iter().map(|i| i.thread).max().unwrap_or(0) + 1;
+                acc.threads_hist[nthreads.min(3)] += 1;
+                let mut rd = fnv(plan.decls[0].src.as_bytes());
+                for (pos, (inv, o)) in plan.history.iter().zip(outcomes.iter()).enumerate() {
+                    *acc.outcome_classes.entry(outcome_class(o)).or_default() += 1;
+                    *acc.strategies.entry(strat_name(inv.strategy)).or_default() += 1;
+                    rd = mix(rd ^ fnv(outcome_text(o).as_bytes()) ^ inv.hseed);
+                    match inv.decl {
+                        None => {
+                            *acc.faults.entry(inv.fault_tag).or_default() += 1;
+                        }
+                        Some(d) => {
+                            let decl = &plan.decls[d];
+                            acc.max_variants = acc.max_variants.max(decl.n);
+                            if pos > 0 {
+                                acc.expansions_compared += 1;
+                            }
+                            if !matches!(o, Outcome::Expanded(_)) {
+                                acc.unexpected_reject_of_supported += 1;
+                                let mut r = rejected_supported.lock().unwrap();
+                                if r.len() < 5 {
+                                    r.push(J::obj(vec![
+                                        ("run_index", J::Int(idx as i128)),
+                                        ("outcome", J::s(format!("{:?}", o))),
+                                        ("src", J::s(decl.src.clone())),
+                                    ]));
+                                }
+                            }
+                            let order = induced_order(decl, inv.strategy, inv.hseed);
+                            let mut od = fnv(decl.src.as_bytes());
+                            for v in &order {
+                                od = mix(od ^ (*v as u64));
+                            }
+                            acc.orders.insert(od);
+                            let sorted = order.windows(2).all(|w| w[0] < w[1]);
+                            if decl.n >= 2 && !sorted {
+                                acc.nontrivial.push(od);
+                            }
+                            if d == 0 {
+                                acc.placements
+                                    .insert(((inv.thread as u64) << 32) | pos as u64);
+                            }
+                        }
+                    }
+                }
+                acc.digest = acc.digest.wrapping_add(mix(idx ^ rd));
+                if idx - from < 2 {
+                    samples.lock().unwrap().insert(
+                        idx,
+                        J::obj(vec![
+                            ("run_index", J::Int(idx as i128)),
+                            ("observed_declaration", J::s(plan.decls[0].src.clone())),
+                            (
+                                "history",
+                                J::Arr(
+                                    plan.history
+                                        .iter()
+                                        .zip(outcomes.iter())
+                                        .map(|(i, o)| {
+                                            J::obj(vec![
+                                                ("thread", J::Int(i.thread as i128)),
+                                                ("plan", J::s(format!("{}:{}", strat_name(i.strategy), i.hseed))),
+                                                (
+                                                    "what",
+                                                    J::s(match i.decl {
+                                                        Some(d) => format!("D{}", d),
+                                                        None => i.fault_tag.to_string(),
+                                                    }),
+                                                ),
+                                                ("outcome", J::s(outcome_class(o))),
+                                                ("text_digest", J::s(format!("{:016x}", fnv(outcome_text(o).as_bytes())))),
+                                            ])
+                                        })
+                                        .collect(),
+                                ),
+                            ),
+                        ]),
+                    );
+                }
+                if let Some(m) = find_mismatch(&plan.history, &outcomes) {
+                    let mut f = found.lock().unwrap();
+                    if f.len() < 3 {
+                        let (min, attempts) = shrink(&plan.history);
+                        let mo = execute(&min);
+                        let mm = find_mismatch(&min, &mo).unwrap_or(m.clone());
+                        let (e, o) = (outcome_text(&mm.expected), outcome_text(&mm.observed));
+                        f.push(J::obj(vec![
+                            ("run_index", J::Int(idx as i128)),
+                            ("declaration", J::s(plan.decls[m.decl].src.clone())),
+                            ("history", history_json(&min)),
+                            ("history_len_before_minimisation", J::Int(plan.history.len() as i128)),
+                            ("reference_at", J::Int(mm.reference_at as i128)),
+                            ("differs_at", J::Int(mm.at as i128)),
+                            ("first_difference", J::s(first_difference(&e, &o))),
+                            ("expected_digest", J::s(format!("{:016x}", fnv(e.as_bytes())))),
+                            ("observed_digest", J::s(format!("{:016x}", fnv(o.as_bytes())))),
+                            ("expected_class", J::s(outcome_class(&mm.expected))),
+                            ("observed_class", J::s(outcome_class(&mm.observed))),
+                            ("shrink_attempts", J::Int(attempts as i128)),
+                        ]));
+                    }
+                    if f.len() >= 3 {
+                        stop.store(true, Ordering::SeqCst);
+                    }
+                }
+            }
+        }
+        accs.lock().unwrap().push(acc);
+    };
+    if workers <= 1 {
+        work();
+    } else {
+        std::thread::scope(|s| {
+            for _ in 0..workers {
+                s.spawn(&work);
+            }
+        });
+    }
+    let mut t = Acc::default();
+    for a in accs.into_inner().unwrap() {
+        t.runs += a.runs;
+        t.invocations += a.invocations;
+        t.expansions_compared += a.expansions_compared;
+        t.digest = t.digest.wrapping_add(a.digest);
+        t.nontrivial.extend(a.nontrivial);
+        t.orders.extend(a.orders);
+        t.placements.extend(a.placements);
+        for (k, v) in a.faults {
+            *t.faults.entry(k).or_default() += v;
+        }
+        for (k, v) in a.outcome_classes {
+            *t.outcome_classes.entry(k).or_default() += v;
+        }
+        for (k, v) in a.strategies {
+            *t.strategies.entry(k).or_default() += v;
+        }
+        for k in 0..4 {
+            t.threads_hist[k] += a.threads_hist[k];
+        }
+        t.unexpected_reject_of_supported += a.unexpected_reject_of_supported;
+        t.max_variants = t.max_variants.max(a.max_variants);
+    }
+    t.nontrivial.sort_unstable();
+    t.nontrivial.dedup();
+    let mapj = |m: &BTreeMap<&'static str, u64>| {
+        J::Obj(m.iter().map(|(k, v)| (k.to_string(), J::Int(*v as i128))).collect())
+    };
+    let found = found.into_inner().unwrap();
+    let j = J::obj(vec![
+        ("seed", J::Int(seed as i128)),
+        ("from", J::Int(from as i128)),
+        ("runs", J::Int(t.runs as i128)),
+        ("invocations", J::Int(t.invocations as i128)),
+        ("expansions_compared", J::Int(t.expansions_compared as i128)),
+        ("digest", J::s(format!("{:016x}", t.digest))),
+        ("distinct_nontrivial", J::Int(t.nontrivial.len() as i128)),
+        ("distinct_induced_orders", J::Int(t.orders.len() as i128)),
+        ("distinct_placements_of_observed", J::Int(t.placements.len() as i128)),
+        ("fault_kinds_fired", mapj(&t.faults)),
+        ("outcome_classes", mapj(&t.outcome_classes)),
+        ("strategies", mapj(&t.strategies)),
+        ("threads_hist", J::Arr(t.threads_hist.iter().map(|x| J::Int(*x as i128)).collect())),
+        ("supported_but_not_expanded", J::Int(t.unexpected_reject_of_supported as i128)),
+        ("supported_but_not_expanded_samples", J::Arr(rejected_supported.into_inner().unwrap())),
+        ("max_variants", J::Int(t.max_variants as i128)),
+        ("wall_s", J::Num(t0.elapsed().as_secs_f64())),
+        ("samples", J::Arr(samples.into_inner().unwrap().into_values().collect())),
+        ("violations", J::Arr(found.clone())),
+    ]);
+    let text = j.render();
+    match arg(args, "--out") {
+        Some(p) => std::fs::write(p, &text).unwrap_or_else(|_| die("cannot write --out")),
+        None => println!("{}", text),
+    }
+    std::process::exit(if found.is_empty() { 0 } else { 1 })
+}
+
+/// replay: a file with one invocation per line: thread \t strategy \t hseed \t decl-id-or-"-" \t src (escaped \n)
+fn replay_cmd(args: &[String]) -> ! {
+    let path = arg(args, "--file").unwrap_or_else(|| die("--file"));
+    let text = std::fs::read_to_string(path).unwrap_or_else(|_| die("cannot read --file"));
+    let mut h = Vec::new();
+    for line in text.lines() {
+        if line.is_empty() {
+            continue;
+        }
+        let f: Vec<&str> = line.splitn(5, '\t').collect();
+        if f.len() != 5 {
+            die("malformed replay line");
+        }
+        h.push(Invocation {
+            thread: f[0].parse().unwrap_or_else(|_| die("thread")),
+            strategy: Strategy::parse(f[1]).unwrap_or_else(|| die("strategy")),
+            hseed: f[2].parse().unwrap_or_else(|_| die("hseed")),
+            decl: if f[3] == "-" { None } else { Some(f[3].parse().unwrap_or_else(|_| die("decl"))) },
+            fault_tag: "",
+            src: f[4].replace("\\n", "\n"),
+        });
+    }
+    let o = execute(&h);
+    for (i, (inv, out)) in h.iter().zip(o.iter()).enumerate() {
+        println!(
+            "#{} thread={} plan={}:{} decl={:?} -> {} {:016x}",
+            i,
+            inv.thread,
+            strat_name(inv.strategy),
+            inv.hseed,
+            inv.decl,
+            outcome_class(out),
+            fnv(outcome_text(out).as_bytes())
+        );
+    }
+    match find_mismatch(&h, &o) {
+        Some(m) => {
+            println!(
+                "MISMATCH invocation #{} differs from #{}: {}",
+                m.at,
+                m.reference_at,
+                first_difference(&outcome_text(&m.expected), &outcome_text(&m.observed))
+            );
+            std::process::exit(1)
+        }
+        None => {
+            println!("no mismatch");
+            std::process::exit(0)
+        }
+    }
+}
+
+/// EXPSIM-REAL: the source of a crate with `count` derives. Each observed declaration
+/// appears at several positions (different modules), with fault declarations in between.
+fn gen_real_cmd(args: &[String]) -> ! {
+    let seed: u64 = arg(args, "--seed").and_then(|s| s.parse().ok()).unwrap_or_else(|| die("--seed"));
+    let count: usize = arg(args, "--count").and_then(|s| s.parse().ok()).unwrap_or(60);
+    let mut rng = Rng::stream(seed, tag("expreal"), 0);
+    let n_decl = (count / 3).max(1);
+    let decls: Vec<gen::Decl> = (0..n_decl)
+        .map(|k| {
+            let mut d = gen::supported(&mut rng, &format!("R{}", k), false);
+            while d.n > 600 {
+                d = gen::supported(&mut rng, &format!("R{}", k), false);
+            }
+            d
+        })
+        .collect();
+    let mut out = String::from("#![allow(warnings)]\n");
+    let mut index = Vec::new();
+    for pos in 0..count {
+        let d = if pos < n_decl { pos } else { rng.below(n_decl as u64) as usize };
+        out.push_str(&format!("pub mod p{} {{\nuse enum_tools::EnumTools;\n{}\n}}\n", pos, decls[d].src));
+        index.push(J::obj(vec![("pos", J::Int(pos as i128)), ("ident", J::s(format!("R{}", d)))]));
+        if rng.chance(1, 4) {
+            let (t, src) = gen::fault(&mut rng, false);
+            if t != "parse_error" {
+                out.push_str(&format!(
+                    "pub mod f{} {{\nuse enum_tools::EnumTools;\n#[derive(EnumTools)]\n{}\n}}\n",
+                    pos, src
+                ));
+            }
+        }
+    }
+    println!(
+        "{}",
+        J::obj(vec![("source", J::s(out)), ("index", J::Arr(index)), ("declarations", J::Int(n_decl as i128))]).render()
+    );
+    std::process::exit(0)
+}
+
+fn main() {
+    std::panic::set_hook(Box::new(|_| {}));
+    let args: Vec<String> = std::env::args().collect();
+    match args.get(1).map(|s| s.as_str()).unwrap_or("") {
+        "run" => run_cmd(&args),
+        "replay" => replay_cmd(&args),
+        "gen-real" => gen_real_cmd(&args),
+        "expand" => {
+            let strategy = arg(&args, "--strategy").and_then(Strategy::parse).unwrap_or(Strategy::Sip);
+            let hseed: u64 = arg(&args, "--hseed").and_then(|s| s.parse().ok()).unwrap_or(0);
+            let mut src = String::new();
+            use std::io::Read;
+            std::io::stdin().read_to_string(&mut src).unwrap();
+            let t = spawn_sim_thread();
+            println!("{:?}", t.expand(&src, strategy, hseed));
+        }
+        _ => die("usage: run | replay | gen-real | expand"),
+    }
 }
